@@ -1168,6 +1168,7 @@ def public_case(env: Env, fn, schema, spec, present, attrs_given, mod=None, same
             model = env.spox.build(build_in, {f"res_{i}": shape_of(v) for i, v in enumerate(outs)})
     except Exception as e:  # noqa: BLE001
         msg = f"{type(e).__name__}: {str(e)[:200]}"
+        r["mro"] = [c.__name__ for c in type(e).__mro__]
         if "number of op outputs should be 1" in msg:
             # the schema's own inference rejects the node because spox cannot leave optional outputs out
             return case, {**r, "status": "optional-outputs-not-omittable", "err": msg}
@@ -1536,11 +1537,490 @@ def compare_call(env, model, r):
     return None
 
 
+# ----------------------------------------------------------------------------- spellings of attribute arguments
+def run_spell_case(env: Env, fn, schema, case):
+    """The real constructor with minimal arguments, required attributes given, and the attribute under
+    test spelled as `case` says (left out / None / a valid spelling / a malformed value).
+    -> dict(status: ok|raised|unobservable, mro, err, proto, given)"""
+    from harness import lib_c11spell as SP
+
+    np = env.np
+    a = case["attr"]
+    names, keep, args = {}, [], {}
+    for formal in schema.inputs:
+        kind = formal.option.name
+        if kind == "Single":
+            v = env.argument(sentinel_type(env, formal))
+            keep.append(v)
+            names[id(v)] = f"in_{formal.name}"
+            args[formal.name] = v
+        elif kind == "Optional":
+            args[formal.name] = None
+        else:
+            vs = []
+            for i in range(max(formal.min_arity, 1)):
+                v = env.argument(sentinel_type(env, formal))
+                keep.append(v)
+                names[id(v)] = f"in_{formal.name}_{i}"
+                vs.append(v)
+            args[formal.name] = vs
+    cb_vars = [env.argument(env.ts.Tensor(np.float32, (2, 3))) for _ in range(2)]
+    keep += cb_vars
+    given = {}
+    for b, sb in schema.attributes.items():
+        if sb.required and b != a:
+            if sb.type.name == "GRAPH":
+                given[b] = lambda *xs: list(cb_vars)
+            elif SP.is_dtype_param(fn, b):
+                given[b] = np.int32
+            else:
+                given[b] = test_value(env, sb)
+    count_attr = OUTPUT_COUNT_ATTRS.get(schema.name)
+    if count_attr in schema.attributes and count_attr != a:
+        given[count_attr] = N_VARIADIC_OUT
+    others = dict(given)
+    if case["cls"] != "omitted":
+        given[a] = SP.value_of(env, case)
+    extra = {}
+    res = {"status": "ok", "given": others, "extra": extra, "keep": keep, "mro": None, "err": None, "proto": None}
+
+    def call():
+        with env.no_inference():
+            return fn(**args, **given, **extra)
+
+    try:
+        try:
+            out = call()
+        except TypeError as e0:
+            m = re.search(r"missing \d+ required keyword-only arguments?: (.*)$", str(e0))
+            names_ = re.findall(r"'(\w+)'", m.group(1)) if m else []
+            known = set(schema.attributes) | {f.name for f in schema.inputs}
+            if names_ and not (set(names_) & known) and any(f.option.name == "Variadic" for f in schema.outputs):
+                for nm in names_:
+                    extra[nm] = N_VARIADIC_OUT
+                if case["cls"] != "omitted":
+                    given[a] = SP.value_of(env, case)  # fresh one-shot iterables
+                out = call()
+            else:
+                raise
+    except Exception as e:  # noqa: BLE001
+        return {**res, "status": "raised", "mro": [c.__name__ for c in type(e).__mro__],
+                "err": f"{type(e).__name__}: {str(e)[:120]}"}
+    try:
+        var = first_var(env, out)
+        node = var._op
+        scope = env.Scope()
+        scope.node[node] = "n"
+        for v in node.inputs:
+            if v is not None and v not in scope.var:
+                scope.var[v] = names.get(id(v), "in_X")
+        for key, v in node.outputs.get_vars().items():
+            scope.var[v] = key
+        protos = node.to_onnx(scope, build_subgraph=lambda n, key, g: env.onnx.helper.make_graph([], key, [], []))
+        return {**res, "proto": protos[0]}
+    except Exception as e:  # noqa: BLE001
+        return {**res, "status": "unobservable", "err": f"{type(e).__name__}: {e}"}
+
+
+def spell_request(env, info, pair, schema, fn, case, r):
+    """driver request for `Conform.callAttrsE` on the extracted constructor"""
+    from harness import lib_c11spell as SP
+
+    f = info["ctors"].get(pair["ctor"])
+    if f is None or f["cls"] is None or f["cls"] not in info["classes"]:
+        return None
+    c = dict(f)
+    c["cls"] = info["classes"][f["cls"]]
+    spelled = {}
+    for b, v in r["given"].items():
+        sb = schema.attributes[b]
+        if sb.type.name == "GRAPH":
+            spelled[b] = {"s": "ok", "v": {"t": "other", "v": "GRAPH"}}
+        else:
+            spelled[b] = {"s": "ok", "v": to_val(env, sb, v)}
+    a, cls = case["attr"], case["cls"]
+    if cls == "none":
+        spelled[a] = {"s": "none"}
+    elif cls == "bad":
+        spelled[a] = {"s": "bad"}
+    elif cls == "valid":
+        v = SP.value_of(env, case)
+        if case["akind"] == "DTYPE":
+            spelled[a] = {"s": "ok", "v": {"t": "dtype", "v": SP.canonical_dtype_name(env, v)}}
+        elif case["akind"] in ("INT", "FLOAT", "INTS", "FLOATS"):
+            spelled[a] = {"s": "ok", "v": to_val(env, schema.attributes[a], list(v) if case["akind"].endswith("S") else v)}
+        elif case["akind"] == "STRING":
+            spelled[a] = {"s": "ok", "v": {"t": "str", "v": v.decode() if isinstance(v, bytes) else str(v)}}
+        elif case["akind"] == "STRINGS":
+            spelled[a] = {"s": "ok", "v": {"t": "strs", "v": [x.decode() if isinstance(x, bytes) else str(x) for x in v]}}
+        else:
+            spelled[a] = {"s": "ok", "v": {"t": "other", "v": case["akind"]}}
+    return {"kind": "spell", "ctor": c, "spelled": spelled}
+
+
+def compare_spell(env, model, r):
+    if "error" in model:
+        return f"driver error {model['error']}"
+    real_raises = r["status"] == "raised"
+    if bool(model.get("raises")) != real_raises:
+        return f"model raises={model.get('raises')} vs real {r['status']} ({r.get('err')})"
+    if real_raises:
+        return None
+    real = {ap.name: proto_val(env, ap) for ap in r["proto"].attribute}
+    mod = {n: v for n, v in model["attrs"]}
+    if set(real) != set(mod):
+        return f"attribute names {sorted(mod)} vs {sorted(real)}"
+    for n in real:
+        x, y = mod[n], real[n]
+        if x["t"] == "other" or y["t"] == "other":
+            continue
+        if x != y:
+            return f"attribute {n}: model {x} vs real {y}"
+    return None
+
+
+def spelling_calls(ck, env: Env, info, pairs, mid, op, version, schema, fn, first, cache, stats, reqs, req_meta):
+    """exhaustive: every attribute parameter of this constructor x every spelling"""
+    from harness import lib_c11spell as SP
+
+    ckey = ("spell", fn, schema.name, schema.since_version)
+    if ckey not in cache:
+        runs = []
+        skip = {OUTPUT_COUNT_ATTRS.get(schema.name)} - {None}
+        for case in SP.cases_for(env, fn, schema, skip):
+            runs.append((case, run_spell_case(env, fn, schema, case)))
+        cache[ckey] = runs
+        fresh = True
+    else:
+        fresh = False
+    unobs = 0
+    for case, r in cache[ckey]:
+        stats["spelling_calls"] = stats.get("spelling_calls", 0) + 1
+        ck.count(("spell", mid, op, case["attr"], case["sp"]))
+        if r["status"] == "unobservable":
+            unobs += 1
+            continue
+        k = f"spelling_{case['cls']}_{case['req']}"
+        if fresh:
+            stats[k] = stats.get(k, 0) + 1
+        for key, what in SP.judge(env, mid, op, schema, case, r["status"], r["mro"], r["err"], r["proto"]):
+            ck.failure(key, what, {"module": mid, "op": op, "kind": "spell", "case": case})
+        if fresh and (mid, op) in pairs and info is not None:
+            try:
+                rq = spell_request(env, info, pairs[(mid, op)], schema, fn, case, r)
+            except Exception as e:  # noqa: BLE001
+                rq = None
+                unobs += 1
+            if rq is not None:
+                reqs.append(rq)
+                req_meta.append((mid, op, case, r))
+    return unobs
+
+
+IN_SPELLS = ["omitted", "none", "var", "vars", "bad", "badlist"]
+
+
+def in_rejects(kind: str, has_default: bool, sp: str) -> bool:
+    """schema-level reading of an input spelling (written independently of the Lean `rejectsIn`)"""
+    if sp in ("bad", "badlist"):
+        return True
+    if kind == "Single":
+        return sp != "var"
+    if kind == "Optional":
+        return sp not in ("var", "none", "omitted")
+    return not (sp == "vars" or (sp == "omitted" and has_default))
+
+
+def run_in_spell_case(env: Env, fn, schema, case):
+    """The real constructor with input `case['input']` spelled as `case['sp']`, the other inputs minimal."""
+    from harness import lib_c11spell as SP
+
+    np = env.np
+    names, keep, args, desc = {}, [], {}, {}
+
+    def fresh(nm, formal):
+        v = env.argument(sentinel_type(env, formal))
+        keep.append(v)
+        names[id(v)] = nm
+        return v
+
+    for formal in schema.inputs:
+        kind = formal.option.name
+        nm = f"in_{formal.name}"
+        if formal.name == case["input"]:
+            sp = case["sp"]
+            if sp == "omitted":
+                desc[formal.name] = {"s": "omitted"}
+                continue
+            if sp == "none":
+                args[formal.name] = None
+                desc[formal.name] = {"s": "none"}
+            elif sp == "var":
+                args[formal.name] = fresh(nm, formal)
+                desc[formal.name] = {"s": "var", "v": nm}
+            elif sp == "vars":
+                args[formal.name] = [fresh(nm + "_0", formal)]
+                desc[formal.name] = {"s": "vars", "v": [nm + "_0"]}
+            elif sp == "bad":
+                args[formal.name] = 3
+                desc[formal.name] = {"s": "bad"}
+            else:
+                args[formal.name] = [fresh(nm + "_0", formal), 3]
+                desc[formal.name] = {"s": "bad"}
+        elif kind == "Single":
+            args[formal.name] = fresh(nm, formal)
+            desc[formal.name] = {"s": "var", "v": nm}
+        elif kind == "Optional":
+            args[formal.name] = None
+            desc[formal.name] = {"s": "none"}
+        else:
+            args[formal.name] = [fresh(nm + "_0", formal)]
+            desc[formal.name] = {"s": "vars", "v": [nm + "_0"]}
+    cb_vars = [env.argument(env.ts.Tensor(np.float32, (2, 3))) for _ in range(2)]
+    keep += cb_vars
+    given = {}
+    for b, sb in schema.attributes.items():
+        if sb.required:
+            given[b] = (lambda *xs: list(cb_vars)) if sb.type.name == "GRAPH" else (
+                np.int32 if SP.is_dtype_param(fn, b) else test_value(env, sb))
+    count_attr = OUTPUT_COUNT_ATTRS.get(schema.name)
+    if count_attr in schema.attributes:
+        given[count_attr] = N_VARIADIC_OUT
+    extra = {}
+    res = {"status": "ok", "desc": desc, "keep": keep, "mro": None, "err": None, "proto": None}
+
+    def call():
+        with env.no_inference():
+            return fn(**args, **given, **extra)
+
+    try:
+        try:
+            out = call()
+        except TypeError as e0:
+            m = re.search(r"missing \d+ required keyword-only arguments?: (.*)$", str(e0))
+            names_ = re.findall(r"'(\w+)'", m.group(1)) if m else []
+            known = set(schema.attributes) | {f.name for f in schema.inputs}
+            if names_ and not (set(names_) & known) and any(f.option.name == "Variadic" for f in schema.outputs):
+                for nm_ in names_:
+                    extra[nm_] = N_VARIADIC_OUT
+                out = call()
+            else:
+                raise
+    except Exception as e:  # noqa: BLE001
+        return {**res, "status": "raised", "mro": [c.__name__ for c in type(e).__mro__], "err": f"{type(e).__name__}: {str(e)[:120]}"}
+    try:
+        node = first_var(env, out)._op
+        scope = env.Scope()
+        scope.node[node] = "n"
+        for v in node.inputs:
+            if v is not None and v not in scope.var:
+                scope.var[v] = names.get(id(v), "in_X")
+        for key, v in node.outputs.get_vars().items():
+            scope.var[v] = key
+        protos = node.to_onnx(scope, build_subgraph=lambda n, key, g: env.onnx.helper.make_graph([], key, [], []))
+        return {**res, "proto": protos[0]}
+    except Exception as e:  # noqa: BLE001
+        return {**res, "status": "unobservable", "err": f"{type(e).__name__}: {e}"}
+
+
+def judge_in_spell(env, mid, op, schema, fn, case, r, accepted_only=False):
+    formal = next(f for f in schema.inputs if f.name == case["input"])
+    kind = formal.option.name
+    try:
+        has_default = inspect.signature(fn).parameters[formal.name].default is not inspect.Parameter.empty
+    except Exception:  # noqa: BLE001
+        has_default = False
+    rej = in_rejects(kind, has_default, case["sp"])
+    what = f"{kind} input {formal.name} spelled {case['sp']}"
+    if r["status"] == "raised":
+        if not rej:
+            return [(f"{mid}:{op}:{formal.name}:input-rejected", f"{what} is refused: {r['err']}")]
+        # the exception class is not judged on the input side: the statement says nothing about it, and the
+        # control-flow constructors (Loop, Scan, SequenceMap) touch their inputs before `Inputs(...)` is built,
+        # so a non-Var there leaves as AttributeError rather than `_fields.py`'s TypeError (clean tree)
+        return []
+    if rej:
+        return [(f"{mid}:{op}:{formal.name}:input-accepted",
+                 f"{what} is accepted" + ("" if r.get("proto") is None else f"; emitted inputs {list(r['proto'].input)}"))]
+    if accepted_only:
+        return []
+    # accepted: the schema's formal inputs in order, cut after the last present one, never below min_input
+    full = []
+    for f in schema.inputs:
+        d = r["desc"][f.name]
+        full += [d["v"]] if d["s"] == "var" else (list(d["v"]) if d["s"] == "vars" else ([""] if f.option.name != "Variadic" else []))
+    n = len(full)
+    while n > 0 and full[n - 1] == "" and n > schema.min_input:
+        n -= 1
+    if list(r["proto"].input) != full[:n]:
+        return [(f"{mid}:{op}:{formal.name}:slot", f"{what}: inputs emitted as {list(r['proto'].input)}, schema slots demand {full[:n]}")]
+    n_fixed = sum(1 for f in schema.outputs if f.option.name != "Variadic")
+    has_var = any(f.option.name == "Variadic" for f in schema.outputs)
+    if len(r["proto"].output) < n_fixed or (not has_var and len(r["proto"].output) != n_fixed):
+        return [(f"{mid}:{op}:outputs:slots", f"{len(r['proto'].output)} outputs emitted for {n_fixed} declared non-variadic outputs")]
+    return []
+
+
+def input_spelling_calls(ck, env: Env, info, pairs, mid, op, schema, fn, cache, stats, reqs, req_meta):
+    ckey = ("inspell", fn, schema.name, schema.since_version)
+    fresh = ckey not in cache
+    if fresh:
+        runs = []
+        for formal in schema.inputs:
+            for sp in IN_SPELLS:
+                case = {"input": formal.name, "sp": sp}
+                runs.append((case, run_in_spell_case(env, fn, schema, case)))
+        cache[ckey] = runs
+    unobs = 0
+    for case, r in cache[ckey]:
+        stats["input_spelling_calls"] = stats.get("input_spelling_calls", 0) + 1
+        ck.count(("inspell", mid, op, case["input"], case["sp"]))
+        if r["status"] == "unobservable":
+            # the constructor accepted the call; only the NodeProto cannot be read (e.g. a non-Var was let in)
+            for key, what in judge_in_spell(env, mid, op, schema, fn, case, {**r, "status": "ok"}, accepted_only=True):
+                ck.failure(key, what, {"module": mid, "op": op, "kind": "inspell", "case": case})
+            unobs += 1
+            continue
+        for key, what in judge_in_spell(env, mid, op, schema, fn, case, r):
+            ck.failure(key, what, {"module": mid, "op": op, "kind": "inspell", "case": case})
+        if fresh and (mid, op) in pairs and info is not None:
+            pair = pairs[(mid, op)]
+            f = info["ctors"].get(pair["ctor"])
+            sd = info["schemas"].get(pair.get("schema"))
+            if f is not None and f["cls"] in info["classes"] and sd is not None:
+                c = dict(f)
+                c["cls"] = info["classes"][f["cls"]]
+                reqs.append({"kind": "inspell", "ctor": c, "spelled": r["desc"], "mins": [sd["minInput"], sd["minOutput"]]})
+                req_meta.append((mid, op, {**case, "insp": True}, r))
+    return unobs
+
+
+def compare_in_spell(env, model, r):
+    if "error" in model:
+        return f"driver error {model['error']}"
+    real_raises = r["status"] == "raised"
+    if bool(model.get("raises")) != real_raises:
+        return f"model raises={model.get('raises')} vs real {r['status']} ({r.get('err')})"
+    if not real_raises and model["inputs"] != list(r["proto"].input):
+        return f"inputs {model['inputs']} vs {list(r['proto'].input)}"
+    return None
+
+
+DTYPE_SPECS = [
+    {"op": "RandomNormal", "inputs": {}, "attrs": {"shape": [2]}, "always": ["shape"]},
+    {"op": "RandomUniform", "inputs": {}, "attrs": {"shape": [2]}, "always": ["shape"]},
+    {"op": "RandomNormalLike", "inputs": {"input": _f32(2)}, "attrs": {}},
+    {"op": "RandomUniformLike", "inputs": {"input": _f32(2)}, "attrs": {}},
+    {"op": "Multinomial", "inputs": {"input": _f32(1, 3)}, "attrs": {}},
+    {"op": "Bernoulli", "inputs": {"input": _f32(2)}, "attrs": {}},
+    {"op": "EyeLike", "inputs": {"input": _f32(2, 2)}, "attrs": {}},
+    {"op": "ConstantOfShape", "inputs": {"input": _i64(1)}, "attrs": {}},
+    {"op": "Softmax", "inputs": {"input": _f32(2, 2)}, "attrs": {}},
+    {"op": "Flatten", "inputs": {"input": _f32(2, 2)}, "attrs": {}},
+    {"op": "Transpose", "inputs": {"data": _f32(2, 2)}, "attrs": {}},
+    {"op": "DepthToSpace", "inputs": {"input": _f32(1, 4, 1, 1)}, "attrs": {"blocksize": 2}, "always": ["blocksize"]},
+]
+
+
+def public_spell_case(env: Env, mid, op, version, schema, fn, mod, spec, case):
+    """constructor -> spox.build -> ModelProto, public API only. -> verdicts or None (not applicable)"""
+    from harness import lib_c11spell as SP
+
+    a = case["attr"]
+    attrs = {b: v for b, v in spec["attrs"].items()
+             if b in schema.attributes and (schema.attributes[b].required or b in spec.get("always", [])) and b != a}
+    if any(sb.required and b not in attrs and b != a for b, sb in schema.attributes.items()):
+        return None
+    spec2 = {**spec, "attrs": dict(attrs)}
+    given = list(attrs)
+    if case["cls"] != "omitted":
+        spec2["attrs"][a] = SP.value_of(env, case)
+        given.append(a)
+    opt_inputs = [f.name for f in schema.inputs if f.option.name == "Optional"]
+    present = set(x for x in (spec.get("subsets") or [[]])[0] if x in opt_inputs)
+    res = public_case(env, fn, schema, spec2, present, given, mod)
+    if res is None:
+        return None
+    _, r = res
+    if r["status"] == "not-one-node" or r["status"] == "optional-outputs-not-omittable":
+        return None
+    status = "ok" if r["status"] == "ok" else "raised"
+    verdicts = SP.judge(env, mid, op, schema, case, status, r.get("mro"), r.get("err"), r.get("proto"))
+    if verdicts and case["cls"] == "none" and status == "raised" and "TypeError" not in (r.get("mro") or []):
+        # `None` on an optional attribute is refused - by the constructor, or by ONNX's own inference
+        # because the operator semantically needs the attribute (ml Scaler)? The same call with the
+        # attribute left out decides: if that is refused alike, `None` was read as "absent".
+        spec3 = {**spec, "attrs": dict(attrs)}
+        res3 = public_case(env, fn, schema, spec3, present, list(attrs), mod)
+        if res3 is not None and res3[1]["status"] == "raised" and (res3[1].get("mro") or [None])[0] == (r.get("mro") or [None])[0]:
+            return []
+    return verdicts
+
+
+def public_spelling_oracle(ck, env: Env, stats, only=None):
+    """None / malformed values for every attribute of the operators the public oracle has valid typed
+    arguments for, plus every valid spelling of every dtype-valued attribute (element types the
+    operator's type constraint admits); in every module. Public API + ModelProto only."""
+    from harness import lib_c11spell as SP
+    from translator.constructors import MODULES
+
+    table = SP.spellings(env)
+    for mid, rel, domain, version, pymod in MODULES:
+        try:
+            mod = env.module(pymod)
+            force = env.schemas(domain, version)
+            ctors = dict(getattr(mod, "_CONSTRUCTORS", {}))
+        except Exception as e:  # noqa: BLE001
+            ck.broken("correspondence", f"module {pymod} not importable", f"{type(e).__name__}: {e}")
+            continue
+        seen_ops = set()
+        for spec in PUBLIC_SPECS + DTYPE_SPECS:
+            op = spec["op"]
+            schema = force.get(op)
+            if schema is None or schema.deprecated or op not in ctors or op in seen_ops:
+                continue
+            seen_ops.add(op)
+            fn = ctors[op]
+            try:
+                cases = SP.cases_for(env, fn, schema)
+                allowed = None
+                chosen = []
+                for ai, a in enumerate(sorted({c["attr"] for c in cases})):
+                    mine = [c for c in cases if c["attr"] == a]
+                    bad = [c for c in mine if c["cls"] == "bad"]
+                    if mine[0]["akind"] == "DTYPE":
+                        if allowed is None:
+                            allowed = {env.onnx.TensorProto.DataType.Name(e) for e in allowed_elems(env, schema, schema.outputs[0].type_str)}
+                        sel = [c for c in mine if c["cls"] in ("none", "omitted", "bad")
+                               or (c["cls"] == "valid" and SP.find_spelling(env, "DTYPE", c["sp"])[3] in allowed)]
+                    else:
+                        k = (ai + len(op)) % max(len(bad), 1)
+                        sel = [c for c in mine if c["cls"] == "none"] + bad[k:k + 1] + bad[(k + 3) % max(len(bad), 1):(k + 3) % max(len(bad), 1) + 1]
+                    chosen += sel
+            except Exception as e:  # noqa: BLE001
+                ck.broken("correspondence", f"public spelling oracle {mid}:{op} not observable", f"{type(e).__name__}: {e}")
+                continue
+            for case in chosen:
+                if only is not None and (only["module"], only["op"], only["case"]["attr"], only["case"]["sp"]) != (mid, op, case["attr"], case["sp"]):
+                    continue
+                try:
+                    verdicts = public_spell_case(env, mid, op, version, schema, fn, mod, spec, case)
+                except Exception as e:  # noqa: BLE001
+                    ck.broken("correspondence", f"public spelling oracle {mid}:{op} not observable", f"{type(e).__name__}: {e}")
+                    continue
+                if verdicts is None:
+                    continue
+                stats["public_spelling_cases"] = stats.get("public_spelling_cases", 0) + 1
+                ck.count(("public-spell", mid, op, case["attr"], case["sp"]))
+                for k, what in verdicts:
+                    ck.failure(k, what, {"module": mid, "op": op, "kind": "public-spell", "case": case})
+
+
 # ----------------------------------------------------------------------------- run
 def failing_pairs(lean_res) -> set:
     out = set()
     for nm in lean_res.broken_names:
-        m = re.search(r"conforms_((?:ml_)?v\d+)_(\w+)", nm)
+        m = re.search(r"(?:conforms|slots)_((?:ml_)?v\d+)_(\w+)", nm)
         if m:
             out.add((m.group(1), m.group(2)))
     return out
@@ -1661,12 +2141,40 @@ def internal_oracle(ck, env: Env, info, stats, extra):
                         if len(ck.samples) < 4 and ("" in list(p.input) or r["given"]):
                             ck.sample({"module": mid, "op": op, "case": case, "inputs": list(p.input),
                                        "attributes": [a.name for a in p.attribute]})
+                u2 = spelling_calls(ck, env, info, pairs, mid, op, version, schema, fn, first, cache, stats, reqs, req_meta)
+                u2 += input_spelling_calls(ck, env, info, pairs, mid, op, schema, fn, cache, stats, reqs, req_meta)
+                if u2:
+                    unobs += u2
+                    if unobs - u2 < 3:
+                        ck.broken("correspondence", f"NodeProto of {mid}:{op} not observable through Node.to_onnx (spelling calls)", "")
             except Exception as e:  # noqa: BLE001
                 unobs += 1
                 if unobs <= 3:
                     ck.broken("correspondence", f"constructor calls of {mid}:{op} not observable", f"{type(e).__name__}: {e}")
     stats["unobservable"] = unobs
     return reqs, req_meta
+
+
+def inventory(ck, *files):
+    """tie G: regenerate `Generated/AdaptAttrInventory.lean` (override table of `_attributes.py`, exits of
+    `dtype_to_tensor_type` / `_adapt.py`); report which normalised-AST hashes differ from the committed
+    baseline (evidence + escalation only - the obligations are about the structural tables)."""
+    import json
+
+    try:
+        from translator import adapt_attr_inventory
+
+        info = adapt_attr_inventory.generate()
+        for p in info["problems"]:
+            ck.broken("extraction", "translator/adapt_attr_inventory.py", p)
+        base = json.loads((core.VERIF / "harness" / "c11c18_source_baseline.json").read_text())
+        mine = {k: v for k, v in info["hashes"].items() if k.split(":")[0] in files}
+        changed = sorted(k for k in set(mine) | {b for b in base if b.split(":")[0] in files} if mine.get(k) != base.get(k))
+        ck.cov["source_inventory"] = {"functions": len(mine), "changed_vs_baseline": changed}
+        return changed
+    except Exception as e:  # noqa: BLE001
+        ck.broken("extraction", "translator/adapt_attr_inventory.py could not read the source", f"{type(e).__name__}: {e}")
+        return ["<unreadable>"]
 
 
 def run(ck: core.Check):
@@ -1683,14 +2191,20 @@ def run(ck: core.Check):
         ck.cov["pairs"] = len(info["pairs"])
         ck.cov["pairs_per_module"] = {m: v["n_pairs"] for m, v in info["modules"].items()}
         ck.cov["listed_deviations"] = [f"{p['module']}:{p['op']}:{','.join(p['except'])}" for p in info["pairs"] if p["except"]]
+    source_changed = inventory(ck, "_attributes.py", "_utils.py")
     res = ck.lean(["SpoxModel.Props.C11"], audit="SpoxModel.Audit.C11")
     if ck.thorough:
         from translator.constructors import MODULES
 
-        ck.leanchecker(["SpoxModel.Props.C11"] + [f"SpoxModel.Generated.Conforms_{m[0]}" for m in MODULES])
+        ck.leanchecker(["SpoxModel.Props.C11", "SpoxModel.Model.Conform", "SpoxModel.Lemmas.Conform",
+                        "SpoxModel.Generated.AdaptAttrInventory"]
+                       + [f"SpoxModel.Generated.Conforms_{m[0]}" for m in MODULES])
     bad_pairs = failing_pairs(res)
     for p in (info or {}).get("pairs", []):
         ck.obligations.append({"name": f"Generated.Conforms.{p['module']}.{p['theorem']}",
+                               "discharged": res.ok or ((p["module"], p["op"]) not in bad_pairs and _module_built(res, p["module"])),
+                               "axioms": None})
+        ck.obligations.append({"name": f"Generated.Conforms.{p['module']}.slots_{p['theorem'][len('conforms_'):]}",
                                "discharged": res.ok or ((p["module"], p["op"]) not in bad_pairs and _module_built(res, p["module"])),
                                "axioms": None})
 
@@ -1715,6 +2229,7 @@ def run(ck: core.Check):
             public_tensor_oracle(ck, env, stats)
             public_type_oracle(ck, env, stats)
             public_dtype_oracle(ck, env, stats, ck.rng)
+            public_spelling_oracle(ck, env, stats)
         except Exception as e:  # noqa: BLE001
             ck.broken("correspondence", "public tensor/type oracle not observable", f"{type(e).__name__}: {e}")
     reqs, req_meta = [], []
@@ -1731,7 +2246,7 @@ def run(ck: core.Check):
     mism = 0
     for (mid, op, case, r), m in zip(req_meta, outs):
         try:
-            d = compare_call(env, m, r)
+            d = (compare_in_spell(env, m, r) if case.get("insp") else compare_spell(env, m, r)) if "sp" in case else compare_call(env, m, r)
         except Exception as e:  # noqa: BLE001
             d = f"comparison not observable: {type(e).__name__}: {e}"
         if d:
@@ -1774,6 +2289,7 @@ def replay(ck: core.Check, doc) -> bool:
         from translator import constructors
 
         constructors.generate()
+        inventory(ck, "_attributes.py", "_utils.py")
         res = ck.lean(["SpoxModel.Props.C11"], audit="SpoxModel.Audit.C11")
         for b in ck.broken_items:
             print("still broken:", b["name"], b["detail"][:200])
@@ -1804,6 +2320,24 @@ def replay(ck: core.Check, doc) -> bool:
         else:
             (public_tensor_oracle if c["kind"] == "public-tensor" else public_type_oracle)(ck2, env, {})
         verdicts += [(f["key"], f["what"]) for f in ck2.failures]
+    if c.get("kind") == "spell" and fn is not None:
+        from harness import lib_c11spell as SP
+
+        r = run_spell_case(env, fn, schema, c["case"])
+        print("outcome:", r["status"], r.get("err"), str(r.get("proto")).replace("\n", " ")[:300])
+        if r["status"] != "unobservable":
+            verdicts += SP.judge(env, mid, op, schema, c["case"], r["status"], r["mro"], r["err"], r["proto"])
+    if c.get("kind") == "inspell" and fn is not None:
+        r = run_in_spell_case(env, fn, schema, c["case"])
+        print("outcome:", r["status"], r.get("err"), None if r.get("proto") is None else list(r["proto"].input))
+        if r["status"] != "unobservable":
+            verdicts += judge_in_spell(env, mid, op, schema, fn, c["case"], r)
+        else:
+            verdicts += judge_in_spell(env, mid, op, schema, fn, c["case"], {**r, "status": "ok"}, accepted_only=True)
+    if c.get("kind") == "public-spell" and fn is not None:
+        spec = next((s_ for s_ in PUBLIC_SPECS + DTYPE_SPECS if s_["op"] == op), None)
+        if spec is not None:
+            verdicts += public_spell_case(env, mid, op, version, schema, fn, mod, spec, c["case"]) or []
     if c.get("kind") == "call" and fn is not None:
         r = run_case(env, fn, schema, c["case"])
         verdicts += judge(env, mid, op, version, schema, c["case"], r, cls)
